@@ -28,9 +28,9 @@ func vstrd(v ssa.Value, d int, seen map[ssa.Value]bool) string {
 	defer delete(seen, v)
 	switch v := v.(type) {
 	case *ssa.Parameter:
-		return "param:" + v.Name()
+		return "param:" + pname(v)
 	case *ssa.FreeVar:
-		return "free:" + v.Name()
+		return "free:" + pname(v)
 	case *ssa.Const:
 		if v.Value == nil {
 			return "nil"
@@ -254,9 +254,9 @@ func Roots(v ssa.Value) []Root {
 		seen[v] = true
 		switch v := v.(type) {
 		case *ssa.Parameter:
-			out = append(out, Root{"param", v.Name(), path, v})
+			out = append(out, Root{"param", pname(v), path, v})
 		case *ssa.FreeVar:
-			out = append(out, Root{"free", v.Name(), path, v})
+			out = append(out, Root{"free", pname(v), path, v})
 		case *ssa.Global:
 			pp := ""
 			if v.Pkg != nil {
